@@ -1547,23 +1547,56 @@ func ruleSIEWindowPerDirective(c *Ctx, rule string) {
 	fn := c.A.F("siePolicy")
 	n := 0
 	bad := ""
-	instrsOf(fn, func(in ssa.Instruction) {
+	isDurCmp := func(in ssa.Instruction) (*ssa.BinOp, bool) {
 		bo, ok := in.(*ssa.BinOp)
 		if !ok {
-			return
+			return nil, false
 		}
 		switch bo.Op {
 		case token.LSS, token.LEQ, token.GTR, token.GEQ:
 		default:
+			return nil, false
+		}
+		return bo, typeIs(bo.X.Type(), "time", "Duration")
+	}
+	compares := func(g *ssa.Function) bool {
+		hit := false
+		for _, h := range c.reachableFrom(g) {
+			instrsOf(h, func(in ssa.Instruction) {
+				if _, ok := isDurCmp(in); ok {
+					hit = true
+				}
+			})
+		}
+		return hit
+	}
+	instrsOf(fn, func(in ssa.Instruction) {
+		if bo, ok := isDurCmp(in); ok {
+			n++
+			for _, side := range []ssa.Value{bo.X, bo.Y} {
+				if phi := loopCarried(side); phi != nil {
+					bad = c.P.InstrPos(in)
+				}
+			}
 			return
 		}
-		if !typeIs(bo.X.Type(), "time", "Duration") {
+		// the comparison sits in a helper: the durations handed to it are the operands
+		call, ok := in.(*ssa.Call)
+		if !ok {
 			return
 		}
-		n++
-		for _, side := range []ssa.Value{bo.X, bo.Y} {
-			if phi := loopCarried(side); phi != nil {
-				bad = c.P.InstrPos(in)
+		for _, g := range c.P.RepoCallees(call) {
+			if g == fn || !compares(g) {
+				continue
+			}
+			for _, a := range call.Call.Args {
+				if !typeIs(a.Type(), "time", "Duration") {
+					continue
+				}
+				n++
+				if phi := loopCarried(a); phi != nil {
+					bad = c.P.InstrPos(in)
+				}
 			}
 		}
 	})
@@ -2269,5 +2302,192 @@ func ruleValidatedEntryIsSentEntry(c *Ctx, rule string) {
 		c.Fail(rule, "validated-entry-is-sent-entry", desc, bad+": the entry handed to the validation handler may be one read from the store after the origin was asked; when a concurrent call replaced it (ETag \"v2\") the 304 for \"v1\" is merged into the new entry: the caller gets the body of v2 under the ETag of v1 and the hybrid is written back")
 	default:
 		c.Pass(rule, "validated-entry-is-sent-entry", desc, fmt.Sprintf("%d context(s)", n))
+	}
+}
+
+// ruleUpstreamBodyCloseGuarded (C10.24): net/http's client accepts a response without a Body from a RoundTripper, so an
+// upstream configured with WithUpstream may return one (a 304, say). Wherever the exchange closes the body of the
+// origin's response itself, the close stands under a nil test of that Body.
+func ruleUpstreamBodyCloseGuarded(c *Ctx, rule string) {
+	desc := "a close of the origin response's body stands under a nil test of that body"
+	fns := map[*ssa.Function]bool{}
+	for fn := range c.A.Reach {
+		fns[fn] = true
+	}
+	for _, b := range c.backgroundFunctions() {
+		for _, f := range c.reachableFrom(b) {
+			fns[f] = true
+		}
+	}
+	n := 0
+	bad := ""
+	for fn := range fns {
+		instrsOf(fn, func(in ssa.Instruction) {
+			r, ok := bodyCloseOf(in)
+			if !ok {
+				return
+			}
+			kinds := c.An.ResponseKinds(r)
+			if !kinds["upstream"] && !kinds["?"] {
+				return
+			}
+			n++
+			guarded := false
+			for _, dc := range controlConds(in.Block()) {
+				for _, lf := range condLeaves(dc.cond, dc.onTrue) {
+					bo, ok := lf.v.(*ssa.BinOp)
+					if !ok || !(bo.Op == token.NEQ && lf.val || bo.Op == token.EQL && !lf.val) {
+						continue
+					}
+					for _, side := range [][2]ssa.Value{{bo.X, bo.Y}, {bo.Y, bo.X}} {
+						if !isNilConst(side[1]) {
+							continue
+						}
+						if u, ok := side[0].(*ssa.UnOp); ok && u.Op == token.MUL {
+							if fa, ok := u.X.(*ssa.FieldAddr); ok && fieldName(fa.X.Type(), fa.Field) == "Body" && c.An.sameCanon(fa.X, r) {
+								guarded = true
+							}
+						}
+					}
+				}
+			}
+			if !guarded {
+				bad = c.P.ShortName(fn) + "@" + c.P.InstrPos(in)
+			}
+		})
+	}
+	switch {
+	case bad != "":
+		c.Fail(rule, "upstream-body-close-guarded", desc, bad+": the body of the origin's response is closed without a nil test; a WithUpstream round tripper that returns a response without a Body (a 304) makes this goroutine panic")
+	default:
+		c.Pass(rule, "upstream-body-close-guarded", desc, fmt.Sprintf("%d close site(s) on origin responses", n))
+	}
+}
+
+// ruleVaryNamesStorable (C19.15 / C04.18): the field names of a Vary list come from the origin and end up as the keys of a
+// JSON object in the index. Like the values (C19.5) they pass through the storable form (validated UTF-8, or an ASCII
+// encoding); a name with other bytes would come back as U+FFFD, the reference would never be recognised again and every
+// identical request would append another one.
+func ruleVaryNamesStorable(c *Ctx, rule string) {
+	desc := "the field names yielded by the Vary resolver are in a form that survives the index encoding"
+	ip := c.P.Pkg("internal")
+	n := 0
+	bad := ""
+	storable := func(x *ssa.Call) bool {
+		sc := x.Call.StaticCallee()
+		if sc == nil || !c.P.IsRepoFunc(sc) {
+			return false
+		}
+		rs := sigResults(sc)
+		if len(rs) != 1 || !isStringType(rs[0]) {
+			return false
+		}
+		valid, enc := false, false
+		for g := range c.P.StaticTree(sc) {
+			instrsOf(g, func(in ssa.Instruction) {
+				cc := callOf(in)
+				if cc == nil {
+					return
+				}
+				if callIsPkgFunc(cc, "unicode/utf8", "ValidString") || callIsPkgFunc(cc, "unicode/utf8", "Valid") {
+					valid = true
+				}
+				if callIsPkgFunc(cc, "strconv", "QuoteToASCII") || callIsPkgFunc(cc, "encoding/hex", "EncodeToString") || callIsMethod(cc, "encoding/base64", "Encoding", "EncodeToString") || callIsPkgFunc(cc, "net/url", "QueryEscape") || callIsPkgFunc(cc, "net/url", "PathEscape") {
+					enc = true
+				}
+			})
+		}
+		return valid && enc
+	}
+	for fn := range c.A.Reach {
+		top := fn
+		for top.Parent() != nil {
+			top = top.Parent()
+		}
+		if top.Pkg != ip {
+			continue
+		}
+		instrsOf(fn, func(in ssa.Instruction) {
+			call, ok := in.(*ssa.Call)
+			if !ok || call.Call.IsInvoke() || call.Call.StaticCallee() != nil {
+				return
+			}
+			if len(call.Call.Args) != 2 || !isStringType(call.Call.Args[0].Type()) || !isStringType(call.Call.Args[1].Type()) {
+				return
+			}
+			if sig, ok := call.Call.Value.Type().Underlying().(*types.Signature); !ok || sig.Results().Len() != 1 || !isBoolType(sig.Results().At(0).Type()) {
+				return
+			}
+			// the resolver looks the request header up by the name it yields
+			fromHeader := false
+			c.P.TraceBack(call.Call.Args[1], TraceOpts{ThroughOps: true, ThroughExtern: true, NoParams: true}, func(v ssa.Value, _ []int) bool {
+				if l, ok := v.(*ssa.Lookup); ok && isHTTPHeader(l.X.Type()) {
+					fromHeader = true
+					return false
+				}
+				if cl, ok := v.(*ssa.Call); ok && (callIsMethod(&cl.Call, "net/http", "Header", "Values") || callIsMethod(&cl.Call, "net/http", "Header", "Get")) {
+					_, args := recvAndArgs(&cl.Call)
+					if _, isK := args[0].(*ssa.Const); !isK {
+						fromHeader = true
+					}
+					return false
+				}
+				return true
+			})
+			if !fromHeader {
+				return
+			}
+			n++
+			if _, isK := call.Call.Args[0].(*ssa.Const); isK {
+				return
+			}
+			if !c.An.dependsOnCall(call.Call.Args[0], storable) {
+				bad = c.P.ShortName(fn) + "@" + c.P.InstrPos(in)
+			}
+		})
+	}
+	switch {
+	case n == 0:
+		c.Undecided(rule, "vary-names-storable", desc, "no resolver yield found")
+	case bad != "":
+		c.Fail(rule, "vary-names-storable", desc, bad+": the name is yielded as the origin sent it; `Vary: *, X-\\xff` comes back from the JSON index keyed by U+FFFD, the stored reference never equals a new one and every identical request appends a reference (the index grows without bound)")
+	default:
+		c.Pass(rule, "vary-names-storable", desc, fmt.Sprintf("%d resolver yield(s)", n))
+	}
+}
+
+// ruleListingThroughRoot (C14.21): Set, Get and Delete reach the files through the os.Root handle, which resolves a name one
+// component at a time. The listing does the same: a walk by path name (filepath.WalkDir on the directory's name)
+// fails with "file name too long" as soon as one key of about 3000 bytes has spread its fragments over a deep tree,
+// does not descend into a base directory that is a symbolic link, and looks a relative base directory up again
+// after a change of the working directory.
+func ruleListingThroughRoot(c *Ctx, rule string) {
+	if c.P.Pkg("store/fscache") == nil {
+		return
+	}
+	desc := "the file-system backend does not walk its directory by path name"
+	n := 0
+	bad := ""
+	byName := func(f *ssa.Function) bool {
+		return isPkgFunc(f, "path/filepath", "WalkDir") || isPkgFunc(f, "path/filepath", "Walk") || isPkgFunc(f, "os", "ReadDir") || isPkgFunc(f, "os", "DirFS")
+	}
+	for _, fn := range c.fsBackendFuncs() {
+		if isTestOnly(c, fn) {
+			continue
+		}
+		instrsOf(fn, func(in ssa.Instruction) {
+			n++
+			for _, op := range in.Operands(nil) {
+				if f, ok := (*op).(*ssa.Function); ok && byName(f) {
+					bad = c.P.ShortName(fn) + "@" + c.P.InstrPos(in) + " (" + f.String() + ")"
+				}
+			}
+		})
+	}
+	switch {
+	case bad != "":
+		c.Fail(rule, "listing-through-root", desc, bad+": the key listing walks the cache directory by its path name; one key of 3000 bytes (its fragment directories nest deeper than a path may be long) makes Keys fail for every prefix although Set and Get of that key work, and a symlinked base directory lists one bogus key and none of the live ones")
+	default:
+		c.Pass(rule, "listing-through-root", desc, fmt.Sprintf("%d instruction(s) of the backend examined", n))
 	}
 }
